@@ -93,6 +93,17 @@ def gen(ctx: Ctx, n):
         if rng.random() < .1:
             scripts = [bytes(rng.choice([rng.randrange(256), rng.choice(list(G.names().values()))]) for _ in range(rng.randrange(0, 49)))
                        for _ in range(rng.randrange(1, 5))]
+        if rng.random() < .04:
+            # call budget spread over the scripts of the list: a function defined by the first script, a few calls in each
+            # script, and a call limit at / just below / just above the total ("spending call budget" must carry forward)
+            h = rng.randrange(0, 4)
+            body = rng.choice([b'', op('TRUE') + op('POP0'), op('NOP255') + b'\x00' if 'NOP255' in G.names() else b''])
+            ks = [rng.randrange(0, 4) for _ in range(rng.choice([2, 3, 3, 4]))]
+            call = op('CALL') + bytes([h])
+            scripts = [op('DEF') + bytes([h]) + len(body).to_bytes(2, 'big') + body + call * ks[0]] + [call * k for k in ks[1:]]
+            scripts[-1] += op('TRUE')
+            cfg = vmrun.Cfg()
+            cfg.call_limit = max(0, sum(ks) + rng.choice([-2, -1, 0, 0, 1]))
         cases.append((cfg, cache, scripts))
     return cases
 
